@@ -577,10 +577,9 @@ class SymReal(SymNum):
         raise TypeError("float() of a symbolic real")
 
     def __hash__(self):
-        # structural: the same term hashes (and compares) equal; two different terms that happen to be equal in
-        # value land in different buckets - an under-approximation of dict/set hits, only relevant to code that
-        # keys containers by symbolic reals (the repository does not)
-        return hash(("symreal", z3.simplify(self.t).get_id()))
+        # every symbolic real lands in the same bucket, so sets / dicts decide membership with ==, which forks on the
+        # symbolic equality (two terms that are equal for some values, e.g. p and 1-p at 1/2, are then found equal there)
+        return 0x5EA1
 
     def __round__(self, nd=None):
         """round() as a monotone function within half a unit of its argument
